@@ -98,7 +98,7 @@ def mode_name(d):
 
 def run_l1(run, pid, rng, n, valid_bias=0.7):
     tables = [replies.gen_table(rng, valid_bias) for _ in range(n)]
-    progs = [RProg(t) for t in tables]
+    progs = [RProg(t, decor=replies.gen_decor(rng)) for t in tables]
     reqs = [("r%d" % i, "contract", "", p.contract().rust_impl()) for i, p in enumerate(progs)]
     res = common.probe_run(reqs, tag=pid.lower() + "r")
     model = model_eval(run, "", ["show_reply_contract %s" % p.contract().coq() for p in progs], pid.lower() + "r1", per_file=60)
